@@ -123,6 +123,11 @@ func (e *Exec) RunFunction(fn *ssa.Function) (err error) {
 				return fmt.Errorf("out of subset: on-call clause %s:%s applies at no call in %s", oc.Callee, lbl, FuncName(fn))
 			}
 		}
+		for i, cl := range c.Ensures {
+			if e.clauseUsed["ensures:"+clauseName(cl, i)] == 0 && e.returnsSeen > 0 {
+				return fmt.Errorf("out of subset: ensures clause %s applies at no return of %s (contract: unknown identifier at every return)", clauseName(cl, i), FuncName(fn))
+			}
+		}
 		for i, om := range c.OnMapUpdates {
 			lbl := om.Label
 			if lbl == "" {
